@@ -4,9 +4,9 @@ CONSTANTS MaxOps = 3
  Fams = {"all"}
  Record = FALSE
  EmitAll = FALSE
- ExtReadd = "refuse"
- PutMode = "refuse"
- TypeMode = "refuse"
+ ExtReadd = "replace"
+ PutMode = "invalidate"
+ TypeMode = "shadow"
  CopyMode = "deep1"
  AttrMode = "tuple"
 INVARIANT CopyIsolation
@@ -15,5 +15,4 @@ INVARIANT InstalledInOrder
 INVARIANT PrefixOnRaise
 INVARIANT ReaddRefused
 INVARIANT DeterminedByExtensions
-INVARIANT NoDivergence
 CHECK_DEADLOCK FALSE
